@@ -192,6 +192,10 @@ def _coarse(f):
 
 def _sig(v):
     rec = v.get("rec") or {}
+    if rec.get("op") == "store":          # the storage layer: name the places where the observation differs from the specification's
+        from vlib import diff_paths
+        g = v.get("got")
+        return "impl|store|" + ("panic" if isinstance(g, dict) and "panic" in g else ",".join(sorted(set(diff_paths(g, v.get("exp")))))[:200])
     f = {_coarse(x) for x in _faults(rec, v.get("got"))}
     return "impl|" + (",".join(sorted(f)) if f else "unexplained|" + str(rec.get("op")))
 
